@@ -1841,6 +1841,9 @@ impl<'a, E: quiver_core::effects::Effect> Compiler<'a, E> {
             };
 
             if let Some(scope) = self.scopes.last_mut() {
+                // A narrowing recorded for an earlier binding of this name says nothing about
+                // the value bound now (`a = A, =a, a` rebinds `a` to the flowing Ok).
+                scope.narrowings.variables.remove(variable_name);
                 scope.bindings.insert(
                     variable_name.clone(),
                     Binding::Variable {
